@@ -131,6 +131,34 @@ def check_no_shortcut(ctx, f, label):
     ctx.check(not msgs, 'R-MUSTPASS', '%s/no-wrong-shortcut' % label, (bad[0] if bad else f).loc(), '%d of %d returns are dominated by Clipper::Execute and tree_to_polygons; every other return is an exact empty-result shortcut' % (len(rets) - len(bad), len(rets)), '; '.join(msgs))
 
 
+def check_forwarding(ctx, db, qn, label):
+    """thin inline overloads of `qn` (bodies that only wrap an operand and call the main overload): every parameter
+    reaches the call, and an argument whose callee parameter has the name of one of the wrapper\'s parameters IS that parameter"""
+    mains = [g for g in db.fn(qn, all=True) if g.body is not None and g.relfile().startswith('src/')]
+    n = 0
+    for f in db.fn(qn, all=True):
+        if f.body is None or f.relfile().startswith('src/'):
+            continue
+        call = next((c for c in f.walk() if c.k == 'CallExpr' and c.callee == qn), None)
+        if call is None:
+            continue
+        main = next((g for g in mains if len(g.params) == len(call.args)), None)
+        if main is None:
+            raise AnalysisBroken('%s: main overload with %d parameters not found' % (qn, len(call.args)))
+        n += 1
+        ctx.touch(f)
+        mine = {p_['n'] for p_ in f.params}
+        used = {x.n for x in f.body.walk() if x.k == 'DeclRefExpr' and x.dk == 'param'}
+        bad = ['parameter `%s` is never used' % p_ for p_ in sorted(mine - used)]
+        for a, cp in zip(call.args, main.params):
+            a0 = _strip_casts(a)
+            if cp['n'] in mine and not (a0.k == 'DeclRefExpr' and a0.n == cp['n']):
+                bad.append('`%s` is passed where the caller\'s own `%s` belongs' % (norm(a.text())[:30], cp['n']))
+        ctx.check(not bad, 'R-EFFECT', '%s-wrapper/%s/forwards-all' % (label, ','.join(p_['t'].split('::')[-1][:10] for p_ in f.params[:2])), f.loc(), 'the convenience overload hands every one of its parameters to the main overload, each in its own position',
+                  '; '.join(bad))
+    return n
+
+
 def check_wrappers(ctx, db):
     """inline overloads wrap single polygons into arrays and must keep the operand order"""
     n = 0
@@ -169,6 +197,8 @@ def check_wrappers(ctx, db):
             ok = o == [f.params[0]['n'], f.params[1]['n']] and norm(call.args[2].text()) == 'operation' and norm(call.args[3].text()) == 'scaling'
         ctx.check(ok, 'R-EFFECT', 'boolean-wrapper#%s,%s/operand-order' % (f.params[0]['t'].split('::')[-1][:8], f.params[1]['t'].split('::')[-1][:8]), f.loc(), 'the convenience overload forwards its first operand first and its second operand second')
     ctx.require('boolean convenience overloads', n, 3)
+    nf = check_forwarding(ctx, db, 'gdstk::boolean', 'boolean') + check_forwarding(ctx, db, 'gdstk::offset', 'offset')
+    ctx.require('R-EFFECT forwarding overloads', nf, 4)
     m = db.fn('gdstk::merge', required=False)
     if m is not None:
         call = next((c for c in m.walk() if c.k == 'CallExpr' and c.callee == 'gdstk::boolean'), None)
